@@ -477,6 +477,7 @@ FN = {
     "sqrt": f_sqrt, "exp": f_exp, "ln": f_ln, "log": f_log, "power": f_power, "mod": f_mod,
 }
 MODELLED = sorted(FN)
+NULL_STRICT = tuple(o for o in FN if o not in ("if", "case", "nvl", "and", "or", "isnull"))
 LAZY = ("if", "case", "nvl", "and", "or")     # an error in an operand that is not needed: strict or lazy, both accepted
 
 
@@ -484,6 +485,10 @@ def apply1(opname, args, extra=None):
     if opname in LAZY and ERR in args and ANY not in args:
         return _lazy(opname, args)
     if ERR in args:
+        # the manual does not define an evaluation order: when another operand is null and the operator propagates null,
+        # an engine may never evaluate the failing operand -> null or the error
+        if opname in NULL_STRICT and any(a is None for a in args):
+            return [ERR, None]
         return [ERR]
     if ANY in args:
         return [ANY]
@@ -833,7 +838,7 @@ def sigs(opname):
     if opname == "case":
         return [((BOOL, t, t), t) for t in (INT, NUM, STR, BOOL)] + [((BOOL, t, BOOL, t, t), t) for t in (INT, STR)]
     if opname == "nvl":
-        return [((t, t), t) for t in (INT, NUM, STR, BOOL)] + [((INT, NUM), NUM)]
+        return [((t, t), t) for t in (INT, NUM, STR, BOOL)]
     if opname == "isnull":
         return [((t,), BOOL) for t in (INT, NUM, STR, BOOL)]
     if opname in ("ceil", "floor"):
